@@ -31,7 +31,7 @@ Qed.
 
 (** * The current code returns (nil, nil) from a reply-expected send *)
 
-Definition cfg0 : cfg := mkCfg 45000 5000 1.
+Definition cfg0 : cfg := mkCfg 45000 5000 1 false.
 
 Definition w_selreq : frame := mkF 65535 0 0 0 1 7 [].
 Definition w_primary : frame := mkF 1 (128 + 1) 1 0 0 0 [177; 4; 0; 0; 0; 1].   (* S1F1 W, body U4 1 *)
